@@ -298,7 +298,8 @@ class Array:
             name_value = utils.parse_single_struct_token('=' + iterable.typecode)
             if name_value is None:
                 raise ValueError(f"Cannot extend from array with typecode {iterable.typecode}.")
-            other_dtype = dtype_register.get_dtype(*name_value, scale=None)
+            # The size of some array typecodes depends on the platform, so use the actual size of the items.
+            other_dtype = dtype_register.get_dtype(name_value[0], iterable.itemsize * 8, scale=None)
             if self._dtype.name != other_dtype.name or self._dtype.bitlength != other_dtype.bitlength:
                 raise ValueError(
                     f"Cannot extend an Array with format '{self._dtype}' from an array with typecode '{iterable.typecode}'.")
